@@ -45,6 +45,7 @@ class Report:
         self.t0 = time.time()
         self.counts_min = {}     # rule -> minimum number of instances (vacuity guard)
         self.selftest = None
+        self.exhaustive = False
 
     # ------------------------------------------------------------------ recording
     def add(self, rule, verdict, where, msg, detail=None):
@@ -121,7 +122,7 @@ class Report:
                 "inconclusive": [i.as_dict() for i in inc],
                 "known_findings_matched": [i.as_dict() for i in known_hits],
                 "notes": self.notes[:50],
-                "exhaustive": False,
+                "exhaustive": bool(self.exhaustive),
                 "checker_cmd": "cd /verif && /venv/bin/python -m sverif %s --tier %s" % (self.prop, self.tier),
                 "trusted_base": ["Python semantics of the statement/expression subset used by the repository",
                                  "hand-written API model of the numpy/stdlib/pandas entry points consulted (sverif/api.py)"],
